@@ -490,8 +490,9 @@ class _SimSemaphore(object):
         self.sched = sched
         self.value = value
         self.bound = bound
-        _SimSemaphore._count[0] += 1
-        self.sid = _SimSemaphore._count[0]
+        # numbered per scheduler (= per case): the number is part of the event log and must not depend on earlier cases
+        sched._sem_seq = getattr(sched, '_sem_seq', 0) + 1
+        self.sid = sched._sem_seq
 
     def acquire(self, blocking=True, timeout=None):
         if not self.sched.in_task():
